@@ -163,11 +163,12 @@ def oracle(seed, tier):
     tmpdir = tempfile.mkdtemp(prefix='s3v-upo-')
     n_small = 80 if tier == 'quick' else 1500
     try:
-        for i in range(n_small + (3 if tier == 'quick' else 12)):
+        for i in range(n_small + (6 if tier == 'quick' else 24)):
             real_scale = i >= n_small
             if real_scale:
-                size = rng.choice([5 * MiB, 5 * MiB + 1, 10 * MiB + 7, 11 * MiB])
-                thr, chunk = 5 * MiB, rng.choice([1 * MiB, 5 * MiB])
+                size = rng.choice([5 * MiB, 5 * MiB + 1, 10 * MiB + 7, 11 * MiB, 17 * MiB])
+                # a threshold above the effective part size and not a multiple of it as well
+                thr, chunk = rng.choice([(5 * MiB, 1 * MiB), (5 * MiB, 5 * MiB), (8 * MiB, 1 * MiB), (8 * MiB, 5 * MiB), (7 * MiB, 6 * MiB)])
             else:
                 size = rng.choice([0, 1, 5, 9, 17, rng.randrange(0, 40)])
                 thr, chunk = rng.choice([1, 6, 8, 100]), rng.choice([1, 3, 8])
@@ -177,7 +178,10 @@ def oracle(seed, tier):
                      'read_size': rng.choice([None, 1, 7, 64 * 1024])}
             if real_scale:
                 proto['read_size'] = rng.choice([None, 256 * 1024, 1 * MiB])
+                kind = rng.choice(['nonseekable', 'nonseekable', 'nonseekable-short', 'seekable', 'path'])
             fake = FakeS3(body_protocol=proto)
+            if real_scale:
+                fake.min_part_size = 5 * MiB
             alg = rng.choice([None, None, 'CRC32'])
             extra = {'ChecksumAlgorithm': alg} if alg else {}
             start = 0
